@@ -155,6 +155,10 @@ func (e *Engine) step(f *frame, stp **State, b *ssa.BasicBlock, ins []guarded, i
 	case *ssa.MakeSlice:
 		arr := e.newArr(st, x.Type().Underlying().(*types.Slice).Elem(), false, "mk")
 		f.env[x] = SliceV{Arr: arr, Off: e.lit(0), Len: termOf(e.get(f, st, x.Len)), Nil: "false"}
+		if e.arrCap == nil {
+			e.arrCap = map[*Arr]string{}
+		}
+		e.arrCap[arr] = termOf(e.get(f, st, x.Cap))
 	case *ssa.MakeClosure:
 		fv := FuncV{Fn: x.Fn.(*ssa.Function)}
 		for _, bnd := range x.Bindings {
@@ -366,8 +370,8 @@ func (e *Engine) sliceOp(f *frame, st *State, x *ssa.Slice, cur string) {
 	case SliceV:
 		lo, hi := bound(x.Low, e.lit(0)), bound(x.High, sv.Len)
 		if e.cfg.NoPanic {
-			// capacity is not modelled: slicing beyond len is flagged although Go allows it up to cap
-			e.oblige("bounds", "", cur, and(le(e.lit(0), lo), le(lo, hi), le(hi, sv.Len)), x.Pos())
+			// Go allows re-slicing up to the capacity
+			e.oblige("bounds", "", cur, and(le(e.lit(0), lo), le(lo, hi), le(hi, e.capTerm(sv))), x.Pos())
 		}
 		f.env[x] = SliceV{Arr: sv.Arr, Off: e.addIdx(sv.Off, lo), Len: sub(hi, lo), Nil: sv.Nil}
 	case ArrPtrV:
